@@ -31,6 +31,7 @@ func checkC01(r *core.Run) {
 	for k := 0; k < n; k++ {
 		progs = append(progs, genProgram((start+uint64(k))%c01Universe, c01CellsPerProgram))
 	}
+	progs = append(progs, c01RegressionProgram())
 	tagCount := map[string]int{}
 	tagFail := map[string]int{}
 	pool := newPool(r)
